@@ -213,7 +213,7 @@ fn gen(rng: &mut Rng, _i: u64) -> String {
 	let mut spec = ImgSpec { pe64, e_lfanew: 0x80, soh: 0x400, soi, image_base, nrva, dirs, opt_size: 0, nsec_field: 2, secs, checksum: 0, magic: if pe64 { 0x20b } else { 0x10b } };
 	spec.opt_size = spec.std_opt_size();
 	let (len, at) = if file { (edata_prd as usize + total, edata_prd as usize) } else { (EDATA_VA as usize + total, EDATA_VA as usize) };
-	let img = Image { len, fill: rng.range(1, 1000) as u32, hdr: spec.header_bytes(), pokes: vec![(at, data.clone())] };
+	let img = Image { len, fill: rng.range(1, 1000) as u32, hdr: scrambled_header(&spec, rng), pokes: vec![(at, data.clone())] };
 	let place = *rng.pick(&[0usize, 0, 4, 8, 12]);
 
 	// ---- queries
